@@ -51,6 +51,10 @@ class Check:
 
     # -- accounting ---------------------------------------------------------------------------
     def add_tlc(self, res):
+        if getattr(res, "cached", False):
+            # behaviours of Gen.tla generated earlier (setup) from the same spec + constants; counted separately
+            self.notes["generator_states_from_cache"] = self.notes.get("generator_states_from_cache", 0) + res.cached_stats["distinct"]
+            return
         self.cov["states"] += res.distinct
         self.cov["transitions"] += res.generated
 
